@@ -1255,7 +1255,17 @@ func inlinedView(P *Prog) (*Prog, []string) {
 	cur := P
 	overlay := P.Overlay
 	var last *Prog
-	// first: parameters that were added to baseline functions and are only logged
+	// first: context parameters that are context.Background() at every root
+	if r := dropBackgroundCtxParams(cur.Pkgs, overlay); r.Count > 0 {
+		if Q, err := loadProg(P.RepoDir, P.Tags, r.Overlay); err == nil {
+			notes = append(notes, r.Notes...)
+			overlay = r.Overlay
+			last, cur = Q, Q
+		} else {
+			notes = append(notes, "context parameter pass discarded: "+firstLines(err.Error(), 3))
+		}
+	}
+	// then: parameters that were added to baseline functions and are only logged
 	if r := dropLogOnlyParams(cur.Pkgs, overlay); r.Count > 0 {
 		if Q, err := loadProg(P.RepoDir, P.Tags, r.Overlay); err == nil {
 			notes = append(notes, r.Notes...)
